@@ -129,15 +129,22 @@ Proof.
   set (A := (a # Z.to_pos b)%Q) in *.
   assert (A52 : (inject_Z (2 ^ 52) <= A)%Q).
   { unfold A, inject_Z, Qle. cbn [Qnum Qden]. rewrite Z2Pos.id by lia. lia. }
-  assert (Mh : (- (1 # 2) <= inject_Z mr - A <= 1 # 2)%Q).
+  assert (Mh : (- (1 # 2) <= inject_Z mr - A <= (1 # 2))%Q).
   { unfold A, inject_Z, Qle, Qminus, Qplus, Qopp. cbn [Qnum Qden]. rewrite !Z2Pos.id by lia. split; lia. }
   assert (Core : (Qabs (inject_Z mr * P - (n # Z.to_pos d)) <= (n # Z.to_pos d) * (1 # Z.to_pos (2 ^ 53)))%Q).
   { rewrite V. apply Qabs_le_iff.
-    assert (K : (1 # Z.to_pos (2 ^ 53)) * inject_Z (2 ^ 52) == 1 # 2)%Q by reflexivity.
+    assert (K : ((1 # Z.to_pos (2 ^ 53)) * inject_Z (2 ^ 52) == (1 # 2))%Q) by reflexivity.
+    assert (Up : (0 < (1 # Z.to_pos (2 ^ 53)))%Q) by reflexivity.
     assert (T : ((1 # 2) * P <= A * P * (1 # Z.to_pos (2 ^ 53)))%Q).
-    { setoid_replace ((1 # 2) * P)%Q with ((1 # Z.to_pos (2 ^ 53)) * inject_Z (2 ^ 52) * P)%Q by (rewrite K; reflexivity).
-      assert (0 < (1 # Z.to_pos (2 ^ 53)))%Q by reflexivity. nra. }
-    split; nra. }
+    { rewrite <- K.
+      setoid_replace ((1 # Z.to_pos (2 ^ 53)) * inject_Z (2 ^ 52) * P)%Q
+        with (inject_Z (2 ^ 52) * (P * (1 # Z.to_pos (2 ^ 53))))%Q by ring.
+      setoid_replace (A * P * (1 # Z.to_pos (2 ^ 53)))%Q with (A * (P * (1 # Z.to_pos (2 ^ 53))))%Q by ring.
+      apply Qmult_le_compat_r; [exact A52|]. apply Qlt_le_weak. now apply Qmult_lt_0_compat. }
+    destruct Mh as [Mh1 Mh2].
+    assert (L1 : ((inject_Z mr - A) * P <= (1 # 2) * P)%Q) by (apply Qmult_le_compat_r; [exact Mh2 | now apply Qlt_le_weak]).
+    assert (L2 : (- (1 # 2) * P <= (inject_Z mr - A) * P)%Q) by (apply Qmult_le_compat_r; [exact Mh1 | now apply Qlt_le_weak]).
+    split; lra. }
   destruct (mr =? 2 ^ 53) eqn:C.
   - apply Z.eqb_eq in C. destruct (971 <? e1_of n d + 1); [discriminate|]. intro K. inversion K; subst m e.
     rewrite pw_succ. fold P. rewrite C in Core.
@@ -167,4 +174,34 @@ Proof.
     rewrite N, M, Qabs_opp, (Qabs_pos (Zpos p # d)) by (unfold Qle; simpl; lia).
     setoid_replace (- inject_Z m * pw e - - (Zpos p # d))%Q with (- (inject_Z m * pw e - (Zpos p # d)))%Q by ring.
     rewrite Qabs_opp. exact R.
+Qed.
+
+(** ** No overflow for moderate values *)
+Lemma e1_upper n d : 0 < n -> 0 < d -> n < d * 2 ^ 1000 -> e1_of n d < 948.
+Proof.
+  intros Hn Hd Hv. destruct (Z_lt_ge_dec (e1_of n d) 948) as [|G]; [assumption|]. exfalso.
+  pose proof (exp_spec n d Hn Hd) as [W _].
+  pose proof (g_antitone n d 948 (e1_of n d - 948) Hn Hd ltac:(lia)) as A.
+  replace (948 + (e1_of n d - 948)) with (e1_of n d) in A by ring.
+  assert (L : g n d 948 < 2 ^ 52).
+  { unfold g, scaled. simpl Z.leb. cbv iota. apply Z.div_lt_upper_bound; [nia|].
+    replace (d * 2 ^ 948 * 2 ^ 52) with (d * 2 ^ 1000) by (replace (2 ^ 1000) with (2 ^ 948 * 2 ^ 52) by (rewrite <- Z.pow_add_r by lia; reflexivity); ring).
+    exact Hv. }
+  lia.
+Qed.
+
+Lemma b64_pos_some n d : 0 < n -> 0 < d -> n < d * 2 ^ 1000 -> exists m e, b64_pos n d = Some (m, e).
+Proof.
+  intros Hn Hd Hv. rewrite b64_pos_eq. pose proof (e1_upper n d Hn Hd Hv) as U.
+  unfold round_at. destruct (scaled n d (Z.max (e1_of n d) (-1074))) as [a b].
+  destruct (rne_div a b =? 2 ^ 53).
+  - replace (971 <? Z.max (e1_of n d) (-1074) + 1) with false by (symmetry; apply Z.ltb_ge; lia). eauto.
+  - replace (971 <? Z.max (e1_of n d) (-1074)) with false by (symmetry; apply Z.ltb_ge; lia). eauto.
+Qed.
+
+Lemma b64_some n d : Z.abs n < Zpos d * 2 ^ 1000 -> exists f, b64 n d = Some f.
+Proof.
+  intro Hv. unfold b64. destruct n as [|p|p]; [eauto|..].
+  - destruct (b64_pos_some (Zpos p) (Zpos d) ltac:(lia) ltac:(lia) Hv) as (m & e & ->). eauto.
+  - destruct (b64_pos_some (Zpos p) (Zpos d) ltac:(lia) ltac:(lia) Hv) as (m & e & ->). eauto.
 Qed.
